@@ -505,6 +505,8 @@ func main() {
 		"a mint that fails after recording its nonce followed in a later block by a valid mint of the same nonce, governance updates of the six entry points " +
 		"with 0, 1 or 3 rejected entries, two spellings of one key, a cost key inside a request) executed through chain.UpdateState with the real contracts; every scenario is " +
 		"executed 6 times (thorough: 16) in fresh processes: GOMAXPROCS 1 and 16, warm and cold state cache; one scenario is executed before and after a wall-clock instant; " +
+		"fan-in scenarios: a new_allocation_request naming 2-6 existing providers of another type (authorizers only / miners and sharders only / both), the request and one probe per failing item " +
+		"executed 300 times (thorough: 3000) on one state in one process at GOMAXPROCS 16 with a cold cache, and once by a warm node; " +
 		"non-trivial = at least one successful state-changing transaction and one failed one; distinct by scenario"
 	self, err := os.Executable()
 	must(err)
